@@ -15,7 +15,7 @@ Inductive bfn :=
 | B_Int_eq | B_Int_neq | B_Int_neg | B_Int_B | B_Int_iter | B_Int_new | B_Int_bear | B_Int_incBy | B_Int_at
 | B_Str_add | B_Str_mul | B_Str_eq | B_Str_cmp | B_Str_B | B_Str_len | B_Str_at | B_Str_iter | B_Str_new
 | B_Arr_add | B_Arr_mul | B_Arr_eq | B_Arr_B | B_Arr_len | B_Arr_at | B_Arr_iter | B_Arr_new | B_Arr_call
-| B_Arr_has | B_Arr_join | B_Arr_O | B_Arr_M | B_Arr_bear | B_Float_B
+| B_Arr_has | B_Arr_join | B_Arr_O | B_Arr_M | B_Arr_bear | B_Float_B | B_Float_eq | B_Float_cmp
 | B_Map_eq | B_Map_B | B_Map_len | B_Map_at | B_Map_iter | B_Map_keys | B_Map_values | B_Map_items
 | B_Range_eq | B_Range_B | B_Range_iter | B_Range_new | B_Range_start | B_Range_stop | B_Range_step
 | B_Nil_eq | B_Nil_B | B_Nil_new | B_Nil_add | B_Nil_sub | B_Nil_mul
@@ -45,7 +45,7 @@ Definition bfn_table : list (string * bfn) :=
    ("Arr#+", B_Arr_add); ("Arr#*", B_Arr_mul); ("Arr#==", B_Arr_eq); ("Arr#B", B_Arr_B);
    ("Arr#len", B_Arr_len); ("Arr#at", B_Arr_at); ("Arr#_iter", B_Arr_iter); ("Arr#new", B_Arr_new);
    ("Arr#call", B_Arr_call); ("Arr#has?", B_Arr_has); ("Arr#join", B_Arr_join); ("Arr#O", B_Arr_O);
-   ("Arr#M", B_Arr_M); ("Arr#bear", B_Arr_bear); ("Float#B", B_Float_B);
+   ("Arr#M", B_Arr_M); ("Arr#bear", B_Arr_bear); ("Float#B", B_Float_B); ("Float#==", B_Float_eq); ("Float#<=>", B_Float_cmp);
    ("Map#==", B_Map_eq); ("Map#B", B_Map_B); ("Map#len", B_Map_len); ("Map#at", B_Map_at);
    ("Map#_iter", B_Map_iter); ("Map#keys", B_Map_keys); ("Map#values", B_Map_values); ("Map#items", B_Map_items);
    ("Range#==", B_Range_eq); ("Range#B", B_Range_B); ("Range#_iter", B_Range_iter); ("Range#new", B_Range_new);
@@ -356,6 +356,8 @@ Definition pick_map (st : state) (v : val) : option (list (val * val) * list (va
   | VMap _ sc ns => Some (sc, ns)
   | _ => if is_wk v "Map" then Some ([], []) else None
   end.
+Definition pick_float (st : state) (v : val) : option Z :=
+  match v with VFloat b _ => Some b | _ => if is_wk v "Float" then Some 0%Z else None end.
 Definition pick_obj (st : state) (v : val) : option nat :=
   match v with VObj id => Some id | _ => None end.
 Definition pick_func (st : state) (v : val) : option nat :=
@@ -375,11 +377,21 @@ Definition as_str st v := trace st (pick_str st) v.
 Definition as_nil st v := trace st (pick_nil st) v.
 Definition as_range st v := trace st (pick_range st) v.
 Definition as_map st v := trace st (pick_map st) v.
+Definition as_float st v := trace st (pick_float st) v.
 Definition as_obj st v := trace st (pick_obj st) v.
 Definition as_func st v := trace st (pick_func st) v.
 Definition as_builtin st v := trace st (pick_builtin st) v.
 Definition as_biter st v := trace st (pick_biter st) v.
 Definition as_errw st v := trace st (pick_errw st) v.
+
+(* ---- IEEE-754 binary64 comparison on bit patterns ------------------------------------- *)
+Definition f_sign (b : Z) : bool := (9223372036854775808 <=? b)%Z.
+Definition f_mag (b : Z) : Z := (b mod 9223372036854775808)%Z.
+Definition f_nan (b : Z) : bool := (9218868437227405312 <? f_mag b)%Z.        (* exponent all ones, mantissa <> 0 *)
+Definition f_key (b : Z) : Z := if f_sign b then (- f_mag b)%Z else f_mag b.   (* -0.0 and 0.0 have the same key *)
+(* Go's ==, <, > on float64: all false when an operand is NaN *)
+Definition f_eq (a b : Z) : bool := negb (f_nan a) && negb (f_nan b) && (f_key a =? f_key b)%Z.
+Definition f_gt (a b : Z) : bool := negb (f_nan a) && negb (f_nan b) && (f_key a >? f_key b)%Z.
 
 (* ---- Inspect() ----------------------------------------------------------- *)
 Definition quote_str (s : string) : string :=
